@@ -38,10 +38,22 @@ func vhPsText(tag string, n int) []byte {
 // the true ones, the script text is byte-identical in the output, and a
 // second signature replaces the first (the twice-signed file is what signing
 // the original with the second blob gives).
-func VH_C08_PowershellResign() {
-	vhMaxLen(2000)
+func VH_C08_PowershellResign() { vhPsResign(false) }
+
+// the same for scripts stored as UTF-16-LE with a byte-order mark
+func VH_C08_PowershellResignUtf16() { vhPsResign(true) }
+
+func vhPsResign(wide bool) {
+	vhMaxLen(4000)
 	style := PsSigStyle(vhConcretize(vhInt("comment-style", 1, 3), 4))
 	script := vhPsText("script", vhConcretize(vhInt("script-bytes", 0, 4), 5))
+	if wide {
+		w := []byte{0xff, 0xfe}
+		for _, c := range script {
+			w = append(w, c, 0)
+		}
+		script = w
+	}
 	sig1 := vhBytes("signature", vhConcretize(vhInt("signature-bytes", 1, 3), 4))
 	sig2 := vhBytes("second-signature", 2)
 	d0, err := DigestPowershell(bytes.NewReader(script), style, crypto.SHA256)
